@@ -116,7 +116,7 @@ func c20(r *simk.Run) *simk.Violation {
 			return nil
 		}})
 		cfg, _ := json.Marshal(map[string]any{"snowvm": map[string]int{"parsedBlockCacheSize": parsedCache, "acceptedBlockWindowCache": acceptedCache}})
-		snowCtx := snowtest.Context(r.T, ids.Empty.Prefix(77))
+		snowCtx := snowtest.Context(TB(r.T), ids.Empty.Prefix(77))
 		toEngine := make(chan common.Message, 16)
 		if err := vm.Initialize(ctx, snowCtx, nil, nil, nil, cfg, toEngine, nil, nullSender{}); err != nil {
 			fail("harness", "Initialize: %v", err)
